@@ -24,6 +24,7 @@ EXPLANATION = (
     "prefix + unit, converter of that prefix, reference {unit: 1} from the same candidate); in-place and functional "
     "multiplication by the factor agree; equal units short-circuit to the identity. Also decided: every text entry path of the definition parser (file, string, define) uses the registry's ParserConfig(non_int_type) and parse_file/parse_string are siblings; int/float/complex of a dimensionless quantity use the magnitude converted to no units. Does not decide the value of any "
     "factor, float accuracy or path independence.")
+EXPLANATION += ' Also decided (round 5): the conversion factor enters Decimal / Fraction magnitudes only through its decimal text (Decimal(str(factor)), never Decimal(factor)); the root-unit recursion accumulates under the visited key.'
 
 FACTOR_PATH = [(PR, "GenericPlainRegistry._get_root_units"), (PR, "GenericPlainRegistry._get_root_units_recurse"),
                (PR, "GenericPlainRegistry._get_conversion_factor"), (PR, "GenericPlainRegistry._convert"),
